@@ -316,7 +316,26 @@ class LineFileBase(SeqProp):
 PIECES = ["a", "bc", "", "é", "漢字", "x y\tz", "q\rw", "end\r", "1,2,3", " lead", "trail ", "𝄞"]
 
 
+def sized_content(rng, total, final_nl, n_lines=None):
+    """a content of exactly `total` UTF-8 bytes (block-size boundaries of buffered readers: 4096, 8192, 65536, ...), with
+    or without a terminated last line"""
+    n = rng.choice([1, 2, 3, 6]) if n_lines is None else n_lines
+    lines = [rng.choice(["a", "bc", "", "é", "x y"]) for _ in range(n)]
+    content = "\n".join(lines) + ("\n" if final_nl else "")
+    missing = total - len(content.encode("utf-8"))
+    if missing < 0:
+        return None
+    k = rng.randrange(n)
+    lines[k] = lines[k] + "L" * missing
+    return "\n".join(lines) + ("\n" if final_nl else "")
+
+
 def gen_content(rng, tier, allow_cr=True, min_lines=0):
+    if min_lines <= 1 and rng.random() < (0.012 if tier == "quick" else 0.03):
+        block = rng.choice([4096, 8192, 65536] if tier == "quick" else [4096, 8192, 16384, 65536, 131072, 1 << 20])
+        c = sized_content(rng, block * rng.choice([1, 1, 2]) + rng.choice([-1, 0, 0, 0, 1]), rng.random() < 0.4)
+        if c is not None:
+            return c
     n = rng.choice([0, 1, 2, 3, 5, 8, 12])
     n = max(n, min_lines)
     lines = []
@@ -359,6 +378,14 @@ class C11Prop(LineFileBase):
                      "iter_next 0", "iter_next 1", "iter_next 0", "iter_next 0"], "D10: iteration with random access"),
             self.mk("MemoryMappedRandomLineAccessFile", c, ["list", [offs[3], offs[0], offs[2]]],
                     ["len", "lines", "get 0", "get 1", "get 2", "slice - - -1"], "D11: permuted subset index"),
+            self.mk("RandomLineAccessFile", sized_content(random.Random(1), 65536, False, 1), ["built"],
+                    ["len", "get -1", "lines"], "one unterminated line of exactly 64 KiB"),
+            self.mk("MemoryMappedRandomLineAccessFile", sized_content(random.Random(2), 2 * 65536, False, 3), ["built"],
+                    ["len", "get -1", "get 0", "slice - - -1"], "128 KiB exactly, last line unterminated"),
+            self.mk("RandomLineAccessFile", sized_content(random.Random(3), 8192, False, 2), ["built"],
+                    ["len", "get -1", "lines"], "8 KiB exactly, last line unterminated"),
+            self.mk("RandomLineAccessFile", sized_content(random.Random(4), 65536, True, 2), ["built"],
+                    ["len", "get -1", "lines"], "64 KiB exactly, terminated"),
             self.mk("RandomLineAccessFile", "é\n漢字\n\nlast", ["file", line_offsets("é\n漢字\n\nlast")],
                     ["len", "get -1", "get -4", "get -5", "get 4", "slice 1 3 -", "sel 0 -1 2"], "multi-byte, no final newline"),
         ]
